@@ -40,7 +40,19 @@ Lemma same_period_between : forall k t t', k <> Never ->
   round_date k t <= t' < round_date k t + dur k -> round_date k t' = round_date k t.
 Proof. intros k t t' Hk. rewrite !round_closed by assumption. destruct k; simpl in *; try congruence; lia. Qed.
 
-Definition TBOUND : Z := 4611686018427387904.   (* 2^62 *)
+(** clock readings the theorems cover: 1970-01-01T00:00:00Z <= t < 9999-12-31T00:00:00Z - from the epoch (the
+    `as usize` cast) up to the last instant at which [next_date] is defined for every rotation (DT_MAX + 1 - one day) *)
+Definition TBOUND : Z := 253402214400.
+
+Lemma next_ok_small : forall k t, t < TBOUND -> next_ok k t = true.
+Proof. intros k t H. unfold next_ok, TBOUND, DT_MAX in *. destruct k; simpl; auto; apply Z.leb_le; lia. Qed.
+
+(** exactly where [next_date] is defined *)
+Lemma next_ok_iff : forall k t, next_ok k t = true <-> k = Never \/ t + dur k <= DT_MAX.
+Proof.
+  intros k t. unfold next_ok. destruct k; simpl; rewrite ?Z.leb_le; split; intros H; auto; try (right; exact H);
+    destruct H as [H|H]; auto; discriminate.
+Qed.
 
 Lemma next_usize_closed : forall k t, k <> Never -> 0 <= t < TBOUND ->
   next_usize k t = round_date k t + dur k.
